@@ -35,3 +35,35 @@ _add(PropertySpec(
     assumptions=[A_REAL, A_FP],
     not_decided=['IEEE-754 effects beyond the two standard-model side lemmas (e.g. fl(n/m*100) landing on the other side of a bin edge)'],
 ))
+
+_MSG_LEMMAS = ['cnt_frame', 'cnt_mono', 'cnt_subset', 'sig_le3', 'abbr_len', 'abbr_re', 'concat_re', 'code_grammar',
+               'fmt03.digits', 'prop.C18.h.three_digits', 'prop.C18.h.mono']
+
+_add(PropertySpec(
+    'C01', 'proof',
+    functions=['ampycloud.data.CeiloChunk.metar_msg', 'ampycloud.data.CeiloChunk._ncd_or_nsc',
+               'ampycloud.icao.significant_cloud', 'ampycloud.wmo.okta2code', 'ampycloud.wmo.height2code'],
+    lemmas=_MSG_LEMMAS,
+    explanation=('metar_msg is symbolically executed from its real AST for every which in {slices, groups, layers}, MSA None or any '
+                 'real, table not computed / any table of symbolic length satisfying the table invariant TI (okta in 0..8, finite sorted '
+                 'bases in [0,1e5), code = abbr(okta) ++ floor-code(base), SigRel).  Posts: grammar of the message; the groups are exactly '
+                 'the rows with `significant and base < MSA`, in table order (ghost selection indices), okta >= 1, 3, 5 for the 1st, 2nd, '
+                 '3rd group, heights non-decreasing.  TI itself is the postcondition of metarize (see C04/C05 evidence for the parts '
+                 'established there) and of significant_cloud / okta2code / height2code, which are verified here.'),
+    assumptions=[A_REAL, 'TI holds for the table handed to metar_msg (established by metarize; preserved because no other stage writes the tables)',
+                 'hit heights, hence bases, in [0, 100000) ft (the property\'s own quantifier)'],
+))
+
+_add(PropertySpec(
+    'C02', 'proof',
+    functions=['ampycloud.data.CeiloChunk.metar_msg', 'ampycloud.data.CeiloChunk._ncd_or_nsc', 'ampycloud.icao.significant_cloud'],
+    lemmas=_MSG_LEMMAS + ['prop.C02.nosig', 'prop.C02.lowest_first', 'prop.C02.ceiling', 'prop.C02.ncd_no_okta',
+                          'prop.C02.nsc_none_below', 'prop.C02.nsc_if_cloud_above'],
+    explanation=('Same symbolic execution of metar_msg as C01; the C02 posts characterise the message (groups = exactly the significant '
+                 'rows below the MSA; NCD/NSC iff there is none; NSC iff a significant row sits at/above the MSA or the high-cloud flag is '
+                 'set; NCD only without the flag).  The statements about okta in the property text (lowest layer first, ceiling never '
+                 'suppressed, NCD only if no layer reaches 1 okta, NSC exactly when cloud exists but none is reportable) are lemmas over '
+                 'that characterisation and TI, proved by induction over the table rows with hand-instantiated hypotheses.'),
+    assumptions=[A_REAL, 'TI holds for the table handed to metar_msg (established by metarize)',
+                 'the meaning of the flag (more than MAX_HITS_OKTA0 hits cropped) is the postcondition of _cleanup_pdf, see C07'],
+))
